@@ -146,7 +146,10 @@ def laplacians(ctx, p):
                 ctx.require(all(close(L[i].sum(), 0) for i in range(N)) and np.allclose(L, L.T), "order-d Laplacian has non-zero row sums or is not symmetric")
         # multi-order
         w2 = 1 + ctx.choose("w", 2)
-        orders, weights = [1, 2, 3], [1.0, float(w2), 0.5]
+        if ctx.flag("repeat_order"):
+            orders, weights = [1, 2, 1], [1.0, float(w2), 0.5]
+        else:
+            orders, weights = [1, 2, 3], [1.0, float(w2), 0.5]
         Lm, mrd = xgi.multiorder_laplacian(H, orders, weights, sparse=sparse, rescale_per_node=rescale, index=True)
         Lm = dense(Lm)
         mpos = inv_map(ctx, mrd, nl, "multiorder_laplacian")
